@@ -233,7 +233,11 @@ extern "C" int harness_main()
 	vp_reach(1);
 	if (ok) vp_reach(2); else vp_reach(3);
 #else
+#ifdef SMALL
+	int const version = 5;
+#else
 	int const version = vp_choose(2) == 0 ? 5 : 4;
+#endif
 	socks_server* proxy = new socks_server(pios, 1080, version);
 	// the malformed client: all negotiation bytes symbolic
 	std::string bad;
@@ -241,16 +245,34 @@ extern "C" int harness_main()
 	{
 		unsigned char const ver = vp_sym_byte();
 		int const nm_alphabet[4] = {0, 1, 2, 255};
+#ifdef SMALL
+		int const nmeth = nm_alphabet[1 + 2 * vp_choose(2)];
+#else
 		int const nmeth = nm_alphabet[vp_choose(4)];
+#endif
 		bad.push_back(char(ver)); bad.push_back(char(nmeth));
 		int const send_methods = nmeth == 255 ? 3 : nmeth;
 		for (int i = 0; i < send_methods; ++i) bad.push_back(char(vp_sym_byte()));
 	}
 	int const nreq = version == 5 ? 10 : 9;
+#ifdef SMALL
+	// quick tier: the bytes the parser branches on are symbolic, the address / port bytes (which only select the
+	// endpoint that is dialled, bound or associated) come from a small alphabet
+	for (int i = 0; i < 4; ++i) bad.push_back(char(vp_sym_byte()));
+	{
+		unsigned char const addrs[3][4] = {{10, 0, 0, 3}, {0, 0, 0, 0}, {2, 'a', 'b', 0xff}};
+		int const a = vp_choose(3);
+		for (int i = 0; i < 4; ++i) bad.push_back(char(addrs[a][i]));
+		int const ports[2] = {9000, 1};
+		int const p = ports[vp_choose(2)];
+		bad.push_back(char(p >> 8)); bad.push_back(char(p & 0xff));
+	}
+#else
 	for (int i = 0; i < nreq; ++i) bad.push_back(char(vp_sym_byte()));
+#endif
 	// whatever follows: a few more bytes (a host name tail, payload, or garbage), then end-of-file
 #ifdef SMALL
-	int const tail = vp_choose(2) * 4;
+	int const tail = 0;
 #else
 	int const tail = vp_choose(3) * 2;
 #endif
